@@ -1,3 +1,3 @@
-// C02 part 4: element types selected by C02_PART (see C02_linalg.cpp)
-#define C02_PART 4
+// C02 part 6: element types selected by C02_PART (see C02_linalg.cpp, which is the whole harness)
+#define C02_PART 6
 #include "C02_linalg.cpp"
